@@ -1011,11 +1011,15 @@ def runave_scenario(c, k):
     return L
 
 
-def segments_of(c):
-    """-> list of segments, each {it_restart, hist: [(step_rel, it, x)] one entry per calc}"""
+def segments_of(c, carry=True):
+    """-> list of LOGICAL segments, each {it_restart, hist: [(step_rel, it, x)] one entry per calc, files: [process
+    segment indices]}.  A new process continues the running-average series of the previous one (the window is part
+    of the state) exactly when the state was written at a step whose value was sampled (on the stride grid, after the
+    step at which the analysis started); otherwise the analysis starts again at the restart step."""
     segs = []
     it = c["it0"]
-    cur = {"it_restart": it, "hist": []}
+    fileno = 0
+    cur = {"it_restart": it, "hist": [], "files": [0]}
     first, boundary = True, False
     for ev in c["events"]:
         if ev[0] == "step":
@@ -1028,9 +1032,16 @@ def segments_of(c):
         elif ev[0] == "boundary":
             boundary = True
         elif ev[0] == "restart":
-            segs.append(cur)
-            cur = {"it_restart": it, "hist": []}
-            first, boundary = True, False
+            fileno += 1
+            rel = it - cur["it_restart"]
+            t0 = cur["hist"][0][0] if cur["hist"] else None
+            if carry and c["L"] > 1 and t0 is not None and rel > t0 and rel % c["stride"] == 0:
+                cur["files"].append(fileno)       # same series, next file; the recomputed step is a repeated step
+                boundary = True
+            else:
+                segs.append(cur)
+                cur = {"it_restart": it, "hist": [], "files": [fileno]}
+                first, boundary = True, False
     segs.append(cur)
     return segs
 
@@ -1071,7 +1082,9 @@ def check_runave_case(run, c, k, impl_lines, scratch, model):
         return 0
     n = 0
     for si, s in enumerate(segs):
-        com, rows = parse_numfile(os.path.join(scratch, "c%ds%d.v0.runave.traj" % (k, si)))
+        rows = []
+        for fno in s["files"]:
+            rows += parse_numfile(os.path.join(scratch, "c%ds%d.v0.runave.traj" % (k, fno)))[1]
         xs = dedup(s["hist"])
         tmax = max(xs) if xs else -1
         orc = runave_oracle(c["L"], c["stride"], xs, tmax)
@@ -1242,9 +1255,10 @@ def check_runavev_case(run, c, k, impl_lines, scratch, model):
     # segments: (it_restart, first relative step of the analysis, [(rel, it, value)])
     segs = []
     it = c["it0"]
-    curseg = {"it_restart": it, "hist": []}
+    curseg = {"it_restart": it, "hist": [], "files": [0]}
     first, boundary = True, False
     j = 0
+    fileno = 0
     for ev in c["events"]:
         if ev[0] == "step":
             if first:
@@ -1258,9 +1272,17 @@ def check_runavev_case(run, c, k, impl_lines, scratch, model):
         elif ev[0] == "boundary":
             boundary = True
         elif ev[0] == "restart":
-            segs.append(curseg)
-            curseg = {"it_restart": it, "hist": []}
-            first, boundary = True, False
+            fileno += 1
+            rel = it - curseg["it_restart"]
+            t0_ = curseg["hist"][0][0] if curseg["hist"] else None
+            # the window of a SCALAR variable is part of the state: the series continues when the state is written at a sampled step
+            if c["vtype"] in ("z", "zper") and c["L"] > 1 and t0_ is not None and rel > t0_ and rel % c["stride"] == 0:
+                curseg["files"].append(fileno)
+                boundary = True
+            else:
+                segs.append(curseg)
+                curseg = {"it_restart": it, "hist": [], "files": [fileno]}
+                first, boundary = True, False
     segs.append(curseg)
     vt = c["vtype"]
     kind = {"z": "scalar", "zper": "periodic %s" % hx(PERIOD), "vec": "vector3", "unit": "unit", "cart": "vector3", "quat": "quat"}[vt]
@@ -1290,14 +1312,15 @@ def check_runavev_case(run, c, k, impl_lines, scratch, model):
     L, st = c["L"], c["stride"]
     for si, s in enumerate(segs):
         rows = []
-        path = os.path.join(scratch, "c%ds%d.v0.runave.traj" % (k, si))
-        if os.path.exists(path):
-            for line in open(path):
-                t = line.split()
-                if t and not t[0].startswith("#"):
-                    f = parse_fields(t[1:])
-                    av = f[0] if isinstance(f[0], list) else [f[0]]
-                    rows.append((int(t[0]), av, f[1]))
+        for fno in s["files"]:
+            path = os.path.join(scratch, "c%ds%d.v0.runave.traj" % (k, fno))
+            if os.path.exists(path):
+                for line in open(path):
+                    t = line.split()
+                    if t and not t[0].startswith("#"):
+                        f = parse_fields(t[1:])
+                        av = f[0] if isinstance(f[0], list) else [f[0]]
+                        rows.append((int(t[0]), av, f[1]))
         xs = {}
         for t, it, x in s["hist"]:
             xs.setdefault(t, x)
@@ -2140,7 +2163,7 @@ def corpus_cases():
     cs = []
     # running average, window 3: values 1 2 4 8 16 32
     cs.append({"kind": "runave", "L": 3, "stride": 1, "it0": 0, "events": [["step", float(2 ** i)] for i in range(7)]})
-    cs.append({"kind": "runave", "L": 2, "stride": 2, "it0": 10, "events": [["step", float(i * i)] for i in range(9)] + [["restart"]] + [["step", float(i)] for i in range(8, 16)]})
+    cs.append({"kind": "runave", "L": 2, "stride": 2, "it0": 10, "events": [["step", float(i * i)] for i in range(9)] + [["restart"], ["step", 64.0]] + [["step", float(i)] for i in range(9, 16)]})
     # a flag switched through the script interface
     cs.append({"kind": "traj", "freq": 1, "it0": 0, "dt": 1.0, "vars": [z(0)], "biases": [],
                "events": [["step", {"0": 1.0}], ["set", "var", 0, "velocity", True], ["step", {"0": 2.0}], ["step", {"0": 4.0}]]})
